@@ -13,10 +13,9 @@ Proof.
   - rewrite IH. unfold product. simpl. lia.
 Qed.
 
-Lemma active_pos l x : active l = Some x -> 0 < x /\ l = Some x.
-Proof.
-  destruct l as [[|p]|]; simpl; intros E; inversion E; subst. split; [lia|reflexivity].
-Qed.
+(** Within the limit: no loop is running, or the product of the running loops
+    is at most the limit (with a limit of 0 only loops of length 0 run). *)
+Definition within (L : N) (lens : list N) : Prop := lens = [] \/ product lens <= L.
 
 
 Lemma eff_eq f : eff f = carry f * product (loops f).
@@ -193,13 +192,13 @@ Qed.
 (** Every enclosing nest (the current one and each one we return to) is within
     the limit. *)
 Fixpoint all_bounded (L : N) (stk : list sbracket) : Prop :=
-  product (loop_lengths stk) <= L /\
+  within L (loop_lengths stk) /\
   match stk with [] => True | _ :: r => all_bounded L r end.
 
 Definition binv2 (L : N) (s : state) (stk : list sbracket) : Prop :=
   sinv s stk /\ all_bounded L stk.
 
-Lemma all_bounded_head L stk : all_bounded L stk -> product (loop_lengths stk) <= L.
+Lemma all_bounded_head L stk : all_bounded L stk -> within L (loop_lengths stk).
 Proof. destruct stk; intros H; apply H. Qed.
 
 Lemma binv2_step c L s stk o s' :
@@ -213,11 +212,11 @@ Proof.
   - (* EnterFor *)
     split; [|exact Hb]. cbn [step] in E. rewrite raise_for_loop_limit_spec, HL in E.
     destruct (N.ltb_spec L (n * eff (cur s))) as [Hlt|Hge]; [discriminate|].
-    rewrite product_loops_cons, <- He. exact Hge.
+    right. rewrite product_loops_cons, <- He. exact Hge.
   - (* EnterCarry *)
     split; [|exact Hb]. cbn [step] in E. rewrite raise_for_loop_limit_spec, HL in E.
     destruct (N.ltb_spec L (n * eff (cur s))) as [Hlt|Hge]; [discriminate|].
-    rewrite product_loops_cons, <- He. exact Hge.
+    right. rewrite product_loops_cons, <- He. exact Hge.
   - (* Exit *)
     destruct stk as [|x stk']; [exact Hb|]. cbn [tl]. apply Hb.
 Qed.
@@ -230,11 +229,11 @@ Qed.
 Theorem loop_nest_bounded_partial : forall c L ops s,
   active (loop_limit c) = Some L -> Forall counted ops ->
   render c init ops = Ok s ->
-  nest_product ops <= L.
+  enclosing_loops ops = [] \/ nest_product ops <= L.
 Proof.
-  intros c L ops s HL Hg E. unfold nest_product. apply all_bounded_head.
+  intros c L ops s HL Hg E. unfold nest_product, enclosing_loops. apply all_bounded_head.
   assert (binv2 L init []) as H0.
-  { split; [exact sinv_init|]. simpl. apply active_pos in HL. unfold product; simpl. lia. }
+  { split; [exact sinv_init|]. simpl. split; [left; reflexivity|exact I]. }
   exact (proj2 (render_invariant c counted (binv2 L)
                   (fun s stk o s' => binv2_step c L s stk o s' HL) ops init [] s H0 Hg E)).
 Qed.
